@@ -33,6 +33,18 @@ AmpFamilies == <<
 >>
 AmpFactors == <<64, 1000, 100000>>
 
+\* stressors (huge counts / indices) placed inside every kind of construct: <<prefix, suffix>> templates x stressors
+StressTemplates == <<
+   <<"", "">>, <<"(", ")">>, <<"(?:", ")">>, <<"(?=", ")">>, <<"(?!", ")">>, <<"(?<=", ")">>, <<"(?<!", ")">>, <<"(?>", ")">>,
+   <<"(?(", ")b|c)">>, <<"(?(a)", "|c)">>, <<"(?(a)b|", ")">>, <<"(a)(?(1)", ")">>, <<"(a)(?(1)b|", ")">>, <<"a|", "">>, <<"", "|a">>,
+   <<"(?:", ")*">>, <<"(?:", "){2}">>, <<"(?:", "){2,}">>, <<"(?:", ")?">>, <<"(?:", ")+?">>, <<"(?i:", ")">>, <<"(?x: ", " )">>,
+   <<"\\b", "">>, <<"", "\\b">>, <<"(", ")\\1">>, <<"(?<n>", ")\\k<n>">>, <<"(?=)", "">>, <<"", "(?=)">>, <<"b", "b">>, <<"(?:b|", ")(?=)">> >>
+Stressors == <<
+   "a{18446744073709551615}", "(?:a{4294967296}){4294967296}", "a{9223372036854775807}{2}", "(?:ab){9223372036854775808}",
+   "a{2,18446744073709551615}", "a{18446744073709551615,}", "a{0,18446744073709551615}", ".{18446744073709551615}", "[ab]{18446744073709551615}",
+   "(a{18446744073709551615})", "a{18446744073709551614}a", "a{18446744073709551615}a{18446744073709551615}",
+   "\\k<99999999999>", "\\99999999999", "(?(99999999999)a)", "\\g<99999999999>", "\\k<-99999999999>" >>
+
 \* budget in milliseconds for a pattern of len bytes (two orders of magnitude above anything legitimate)
 Budget(len) == 5000 + len
 
